@@ -109,6 +109,31 @@ def main():
             hist["model_runs"] += 1
             if mt != "Ok " + hx(ref):
                 disagreements.append({"what": "%s options %s" % (label, args), "model": mt[:100], "capture": cap.hex(), "keylog": keylog})
+    # what an unfinished connection leaves behind: a capture that stops in the middle of a (fragmented) handshake, at every early cut
+    # point, is processed first; then another capture in the same process -- its export must be that of a fresh interpreter
+    for i in range(2 if ck.tier == "quick" else 20):
+        if i % 2 == 0:
+            a = pool.tls_conn(rng, table, hist, idx=1, code=rng.choice([0xC02F, 0x002F, 0xCCA8]), ver="TLS12", shape="full",
+                              hs12_cuts=[rng.randrange(1, 720) for _ in range(4)], schedule="records", nrec=2, reclen=40)
+        else:
+            a = pool.tls_conn(rng, table, hist, idx=1, code=0x1301, ver="TLS13", hs13_cuts=[rng.randrange(1, 400) for _ in range(4)], schedule="records", nrec=2, reclen=40)
+        b = pool.build(rng, [pool.tls_conn(rng, table, hist, idx=2, nrec=3, reclen=40), pool.quic_conn(rng, hist, idx=3, napp=3)], hist)
+        cap_path, log_path = os.path.join(tmp, "in.pcapng"), os.path.join(tmp, "keys.log")
+        with open(cap_path, "wb") as f:
+            f.write(b.capture)
+        with open(log_path, "w", newline="") as f:
+            f.write(b.keylog)
+        ref = fresh_process(cap_path, log_path, [], 0, tmp, {})
+        for j in range(4, min(len(a.packets), 16)):
+            impl.run(capgen.to_pcapng(a.packets[:j]), a.s.keylog, [])
+            st, o = impl.run(b.capture, b.keylog, [])
+            hist["variation=in-process-after-unfinished"] += 1
+            ck.case(("c18-unfinished", i, j))
+            if (o if st == "ok" else st) != ref:
+                fails.append({"what": "generated %s: in-process, after a capture that stops after %d packets of a %s connection with a fragmented handshake, gives a different export" % (
+                    [c.kind for c in b.conns], j, "TLS 1.2" if i % 2 == 0 else "TLS 1.3"), "capture": b.capture.hex(), "keylog": b.keylog, "args": [],
+                    "earlier_capture": capgen.to_pcapng(a.packets[:j]).hex(), "earlier_keylog": a.s.keylog})
+                break
     import shutil
     shutil.rmtree(tmp, ignore_errors=True)
     shutil.rmtree(other, ignore_errors=True)
